@@ -348,7 +348,7 @@ def run_check(prop, a, bdir, seed, t0):
         import copy
         second = []
         for j in jobs:
-            if j.status in ("ok", "failed"):
+            if j.status in ("ok", "failed") and not getattr(j, "is_full", False):    # region jobs of known findings are not re-discharged
                 k = driver.Job(j.unit, j.name + "#2", j.entry, j.enforce, j.replace, j.files, j.defines, rec=j.rec, props=j.props, kind=j.kind, unwind=j.unwind)
                 k.incdirs, k.kf, k.first = j.incdirs, j.kf, j
                 k.contract, k.timeout, k.unwind_fns = getattr(j, "contract", None), getattr(j, "timeout", None), getattr(j, "unwind_fns", None)
@@ -359,7 +359,7 @@ def run_check(prop, a, bdir, seed, t0):
         for j in second:
             by_inc.setdefault(tuple(j.incdirs), []).append(j)
         for inc, js in by_inc.items():
-            driver.run_jobs(js, bdir, backends=("kissat", "minisat"), timeout=timeout, incdirs=inc,
+            driver.run_jobs(js, bdir, backends=("kissat", "minisat"), timeout=min(timeout, 300), incdirs=inc,
                             loops={k.name: loops.get(k.first.name, ()) for k in js})
         for k in second:
             j = k.first
